@@ -104,6 +104,27 @@ prop("C02", "exploration",
           "track write; distinct = new plan digest reaching a new observation hash",
      assumptions=["refcodec is independent in code (no libdjinterop call, zlib one-shot API) but was written by the same author from "
                   "the same format description: it pins today's wire format against later coordinated drift"])
+prop("C18", "exploration",
+     quick=[("table", "fast", 1500)],
+     thorough=[("table", "fast", 80000), ("tableh", "fast", 20000), ("table", "san", 3000)],
+     relevant=["table_row_checked"],
+     rule="2.x-only histories of track_table add/update/get/remove, every per-column getter/setter, accessors naming nonexistent "
+          "rows, playlist_table and playlist_entity_table operations, against a row model; rows give every same-typed pair of "
+          "columns different values; after every step every row is re-read and compared column by column (all three column-list "
+          "ranges 2.18.0 / 2.20.1-2 / >=2.20.3 are sampled); non-trivial = at least one row written and compared; distinct = new plan "
+          "digest reaching a new observation hash")
+prop("C03", "exploration",
+     quick=[("tableh", "fast", 900), ("tracks", "fast", 900), ("tableh", "san", 60)],
+     thorough=[("tableh", "fast", 50000), ("tracks", "fast", 50000), ("table", "fast", 20000), ("tableh", "san", 3000)],
+     relevant=["t_add_ok", "t_update_ok", "t_setcol_ok", "codec_roundtrip_checked"],
+     rule="the five public 2.x blob structs are generated over the statement's domain (every double class incl. -0, inf, NaN, "
+          "denormals - compared by bit pattern through to_blob bytes; int edges; labels 0..300 arbitrary bytes; 0..12 entries; large "
+          "grids and waveforms; arbitrary extra_data) and pushed through track_table add/update/set -> SimDisk -> get: equal, or "
+          "the write threw and nothing was stored; the six 1.x codecs are reached through create_track/update/setters for every "
+          "shape a snapshot can express; non-trivial = at least one blob stored and read back; distinct = new plan digest reaching "
+          "a new observation hash",
+     assumptions=["gap (stated in DESIGN): 1.x codec values no public call can construct (default != adjusted grid, is_adjusted "
+                  "combinations) are not generated"])
 prop("C14", "fault_enumeration",
      quick=[("atomic", "fast", 320)],
      thorough=[("atomic", "fast", 12000), ("atomic", "san", 400)],
